@@ -138,11 +138,12 @@ func (g *c11Gen) history() {
 	for _, a := range g.accts {
 		g.do("acct " + c11Hex(a))
 	}
+	g.do("acct " + c11Hex(common.Address{})) // tracked (ICS-20 receiver whose `mint` reverts), never a sender
 	A1 := g.accts[0]
 	for _, m := range []string{"evm", "transfer", "gov", "bonded_tokens_pool"} {
 		g.do("block " + c11Hex(common.BytesToAddress(authtypes.NewModuleAddress(m))))
 	}
-	pool := []string{"acoin", "bcoin", "ibc/7F1D3FCF4AE79E1554D670D1AD949A9BA4E4A3C76C63093E17E446A46061A7A2", "ccoin", "dcoin", "stake"}
+	pool := []string{"acoin", "bcoin", c11Voucher("uatom"), "ccoin", "dcoin", "stake"}
 	rng.Shuffle(len(pool), func(i, j int) { pool[i], pool[j] = pool[j], pool[i] })
 	g.native = nil
 	mint := func(d string) {
@@ -184,6 +185,7 @@ func (g *c11Gen) history() {
 		mint(pool[pi])
 	}
 	// external pairs
+	extV := []string{c11Voucher("uosmo"), c11Voucher("ujuno")}
 	kinds := []string{"mb"}
 	if rng.Intn(2) == 0 {
 		kinds = append(kinds, "mb")
@@ -209,8 +211,19 @@ func (g *c11Gen) history() {
 			init = big.NewInt(int64(1000 + rng.Intn(100000)))
 		}
 		g.do(fmt.Sprintf("deploy %s %s %s %s", k, c11Hex(c), c11Hex(deployer), init))
+		hasIbc := false
 		if rng.Intn(8) > 0 {
 			g.do(fmt.Sprintf("regerc20 %s %s", c11Hex(c), hxs(aggtypes.CreateDenom(c.String()))))
+			// an external pair that also lists an IBC voucher (AddCoin does not look at the owner): the ICS-20 hook
+			// then converts received vouchers into tokens out of the module's escrow
+			if len(extV) > 0 && rng.Intn(5) < 2 {
+				v := extV[0]
+				extV = extV[1:]
+				mint(v)
+				g.do(fmt.Sprintf("addcoin %s %s", hxs(v), c11Hex(c)))
+				g.r.Count("setup.extpair.ibc-denom." + k)
+				hasIbc = true
+			}
 		}
 		g.r.Count("setup.extpair." + k)
 		for _, a := range g.accts {
@@ -230,6 +243,15 @@ func (g *c11Gen) history() {
 		if k == "mb" && rng.Intn(12) == 0 { // an external token whose whole uint256 range is in one hand
 			g.do(fmt.Sprintf("tmint %s %s %s %s", c11Hex(c), c11Hex(deployer), c11Hex(g.accts[2]),
 				new(big.Int).Sub(c11MaxUint, w.callUint(w.ctx, c, "totalSupply"))))
+		}
+		if hasIbc && rng.Intn(3) > 0 { // fund the module's token escrow so that hook conversions can succeed
+			for _, a := range g.accts {
+				if b := w.callUint(w.ctx, c, "balanceOf", a); b != nil && b.Cmp(big.NewInt(4)) > 0 && b.BitLen() < 64 {
+					g.doDump(fmt.Sprintf("ce %s %s %s %s %s", hxs("0x"+c11Hex(c)), new(big.Int).Rsh(b, 1), c11Hex(a), hxs("0x"+c11Hex(a)),
+						hxs(aggtypes.CreateDenom(c.String()))))
+					break
+				}
+			}
 		}
 		// watch the alias denominations of this contract
 		g.do("watch " + hxs(c11Alias(c, false)))
@@ -273,6 +295,10 @@ func (g *c11Gen) stepOp() {
 			g.doDump("toggle " + hxs("0x"+c11Hex(c)))
 			p = w.pairOf(w.ctx, c)
 		}
+	}
+	if rng.Intn(100) < 13 {
+		g.icsOp()
+		return
 	}
 	switch x := rng.Intn(100); {
 	case x < 38: // ConvertCoin
@@ -398,7 +424,7 @@ func TestC11(t *testing.T) {
 	for _, h := range corpusOps("C11") {
 		run(append([]string{"reset"}, h...))
 	}
-	hist := 45
+	hist := 55
 	if r.Tier == "thorough" {
 		hist = 80
 	}
@@ -409,4 +435,52 @@ func TestC11(t *testing.T) {
 		g.history()
 		r.Nontrivial(strings.Join(w.hist, ";"))
 	}
+}
+
+// an ICS-20 packet for one of three base denominations of the counterparty (their vouchers may be listed by a
+// module-owned pair, by an external pair, or not at all)
+func (g *c11Gen) icsOp() {
+	rng := g.r.Rng
+	w := g.w
+	base := []string{"uatom", "uatom", "uosmo", "uosmo", "ujuno"}[rng.Intn(5)]
+	v := c11Voucher(base)
+	recv := c11Hex(g.anyAcct())
+	switch x := rng.Intn(20); {
+	case x < 3:
+		recv = c11Hex(common.Address{})
+	case x == 3:
+		recv = c11Hex(g.anyAcct(w.module, common.BytesToAddress(authtypes.NewModuleAddress("evm"))))
+	case x == 4:
+		recv = c11Hex(c11Thief)
+	case x == 5 && rng.Intn(2) == 0:
+		recv = "!"
+	}
+	amt := big.NewInt(int64(1 + rng.Intn(400)))
+	if p := w.resolve(w.ctx, v); p.found && p.owner == aggtypes.OWNER_MODULE && recv != "!" && rng.Intn(4) == 0 {
+		recv = c11Hex(common.Address{}) // `mint` to the zero address reverts after the vouchers were escrowed
+	}
+	if p := w.resolve(w.ctx, v); p.found && p.owner == aggtypes.OWNER_EXTERNAL {
+		if esc := w.callUint(w.ctx, p.addr, "balanceOf", w.module); esc != nil && esc.Sign() > 0 {
+			switch rng.Intn(6) {
+			case 0:
+				amt = new(big.Int).Set(esc)
+			case 1:
+				amt = new(big.Int).Add(esc, big.NewInt(1))
+			case 2, 3:
+				amt = new(big.Int).Rand(rng, esc)
+				amt.Add(amt, big.NewInt(1))
+			}
+		}
+	}
+	switch rng.Intn(40) {
+	case 0:
+		amt = big.NewInt(0)
+	case 1:
+		amt = big.NewInt(-3)
+	case 2:
+		amt = new(big.Int).Lsh(big.NewInt(1), 255)
+	case 3:
+		amt = new(big.Int).Set(c11MaxUint)
+	}
+	g.doDump(fmt.Sprintf("ics %s %s %s %s", recv, hxs(base), hxs(v), amt))
 }
